@@ -319,8 +319,74 @@ def impl_deser(inp):
     return _deser(inp["text"])
 
 
+def impl_rh(inp):
+    """The real ConventionalResponseHandler fed a sequence of parts (lock-step with rh_run)."""
+    _P()
+    from breezy.bzr.smart import message
+    from dromedary import errors as terrors
+    h = message.ConventionalResponseHandler()
+    try:
+        for e in inp["events"]:
+            if e[0] == "o":
+                h.byte_part_received(e[1])
+            elif e[0] == "b":
+                h.bytes_part_received(e[1])
+            elif e[0] == "s":
+                h.structure_part_received(tuple(e[1]))
+            elif e[0] == "h":
+                h.headers_received({})
+            else:
+                h.end_received()
+    except terrors.SmartProtocolError:
+        return Err("SmartProtocolError")
+    return [h.status, None if h.args is None else bencode(list(h.args)), list(h._bytes_parts),
+            bool(h._body_started), h._body_stream_status,
+            None if h._body_error_args is None else bencode(list(h._body_error_args))]
+
+
+def coq_rh_events(events):
+    out = []
+    for e in events:
+        if e[0] == "o":
+            out.append(f"EvByte {e[1][0]}%N")
+        elif e[0] == "b":
+            out.append(f"EvBytes {coq_bytes(e[1])}")
+        elif e[0] == "s":
+            out.append(f"EvStruct {coq_bytes(bencode(list(e[1])))}")
+        elif e[0] == "h":
+            out.append("EvHeaders (@nil N)")
+        else:
+            out.append("EvEnd")
+    return coq_list(out)
+
+
+def gen_rh(rng, tier):
+    """Part sequences for the response handler: every conventional response shape (incl. a stream
+    error before the first chunk), then arbitrary sequences (mostly rejected)."""
+    shapes = []
+    for ok in (b"S", b"E"):
+        base = [["h"], ["o", ok], ["s", [b"ok", b"x"]]]
+        shapes += [base + [["e"]], base + [["b", b"body"], ["e"]]]
+        for nchunks in (0, 1, 3):
+            chunks = [["b", bytes([97 + i]) * i] for i in range(nchunks)]
+            shapes += [base + chunks + [["e"]], base + chunks + [["o", b"S"], ["e"]],
+                       base + chunks + [["o", b"E"], ["s", [b"error", b"boom"]], ["e"]]]
+    for ev in shapes:
+        yield {"kind": "rh", "events": ev}
+    for _ in range(150 if tier == "quick" else 3000):
+        ev = []
+        for _ in range(rng.randint(0, 7)):
+            k = rng.choice("oosbbhe")
+            ev.append(["o", rng.choice([b"S", b"E", b"E", b"C"])] if k == "o" else
+                      ["s", gen_args(rng)] if k == "s" else ["b", rbytes(rng, rng.randint(0, 3))] if k == "b"
+                      else [k])
+        yield {"kind": "rh", "events": ev}
+
+
 def impl_A(inp):
     k = inp["kind"]
+    if k == "rh":
+        return impl_rh(inp)
     if k == "lp":
         return impl_lp(inp)
     if k == "lp_raw":
@@ -348,6 +414,8 @@ def impl_A(inp):
 
 def model_term_A(inp):
     k = inp["kind"]
+    if k == "rh":
+        return f"run_rh {coq_rh_events(inp['events'])}"
     if k == "lp":
         return f"run_lp {coq_bytes(inp['body'])} {coq_bytes(inp['tail'])} {coq_lens(inp['lens'])}"
     if k == "lp_raw":
@@ -882,7 +950,8 @@ def oracle_e2e(inp, obs):
 
 
 def is_stream_error_before_first_chunk(inp):
-    """The class of inputs of known finding C29-v3-stream-error-before-first-chunk."""
+    """The class of inputs of the former finding C29-v3-stream-error-before-first-chunk
+    (repaired in /repo by 737004f; kept for the distribution histogram only)."""
     return (inp.get("kind") == "e2e" and inp["version"] == 3 and
             any(r["resp"]["kind"] == "stream" and not r["resp"]["chunks"] and r["resp"]["err"] is not None
                 for r in inp["requests"]))
